@@ -718,6 +718,12 @@ func (fe *FnExec) checkOnlyClauses() {
 					}
 					site = fmt.Sprintf("send#%d", fe.callOrd[in])
 				case *ssa.Store:
+					// a store into a field or element of the local (a struct or array variable):
+					// allowed only where the clause lists "fieldstore"
+					if _, isAlloc := x.Addr.(*ssa.Alloc); !isAlloc && derives(x.Addr, 0) {
+						site = "fieldstore"
+						break
+					}
 					// assigning to the local is its definition; storing its value elsewhere lets it escape
 					if a, ok := x.Addr.(*ssa.Alloc); ok && a.Comment == oc.Local && !derives(x.Val, 0) {
 						continue
@@ -732,6 +738,9 @@ func (fe *FnExec) checkOnlyClauses() {
 				case *ssa.UnOp:
 					if a, ok := x.X.(*ssa.Alloc); ok && a.Comment == oc.Local {
 						continue // the load that produces the value
+					}
+					if _, isFA := x.X.(*ssa.FieldAddr); isFA && x.Op == token.MUL && derives(x.X, 0) {
+						continue // reading a field of the local
 					}
 					if !derives(x.X, 0) {
 						continue
